@@ -6,7 +6,7 @@ cd /verif
 W=$(mktemp -d /tmp/gtsa_refactor_XXXX)
 git -C /repo worktree add -q --detach $W/wt HEAD
 BAD=0; N=0
-for P in refactors/*/r*.diff; do
+for P in refactors/*/[rs]*.diff; do
   N=$((N+1))
   git -C $W/wt checkout -q -- . ; rm -rf $W/wt/_gtsa_out
   git -C $W/wt apply /verif/$P || { echo "$P: does not apply"; BAD=$((BAD+1)); continue; }
